@@ -1,6 +1,7 @@
 """M-eval: post-condition on evaluators.*.evaluate(datadict, start=, stop=) — the single funnel through which
 evaluate / evaluate_single / evaluate_list / evalpts / tessellation / split etc. all pass. Everything needed by the
 oracle (degree, knot vectors, control points, sizes, sample sizes, rational flag) is in `datadict`."""
+import math
 from fractions import Fraction as F
 
 from . import hooks, ref, gen as G
@@ -111,8 +112,24 @@ def post_evaluate(hk, self, a, k, res, pv):
         if S is None:
             S = max(1.0, max(abs(float(c)) for P in shape.net.values() for c in (P[:-1] if shape.rational else P)) /
                     (min(float(P[-1]) for P in shape.net.values()) if shape.rational else 1.0))
+            # conditioning: the grid parameters are floats (a few roundings in linspace, then its documented rounding to 18 decimals), so
+            # the sampled point may be off by |dS/du| * du; sound bound of the derivative: degree * 2 max|P| / (shortest knot interval),
+            # for rational shapes through the quotient rule. Negligible (<< 1e-9 S) unless knot intervals are ~1e10 ulps short.
+            COND = 0.0
+            coords = [abs(float(c)) for P in shape.net.values() for c in (P[:-1] if shape.rational else P)]
+            pmax_ = max(coords) if coords else 0.0
+            if shape.rational:
+                ws_ = [float(P[-1]) for P in shape.net.values()]
+                lip = 4.0 * max(ws_) * (pmax_ / min(ws_)) / min(ws_)
+            else:
+                lip = 2.0 * pmax_
+            for d in range(pdim):
+                ks_ = sorted(set(float(x) for x in shape.U[d]))
+                hmin_ = min((y - x for x, y in zip(ks_, ks_[1:])), default=1.0)
+                du_ = 4.0 * math.ulp(max(abs(float(start[d])), abs(float(stop[d])))) + 5e-19
+                COND += shape.p[d] * lip / hmin_ * du_
         got = res[f]
-        if len(got) != len(exact) or any(not abs(g - float(e)) <= 1e-9 * S for g, e in zip(got, exact)):
+        if len(got) != len(exact) or any(not abs(g - float(e)) <= 1e-9 * S + COND for g, e in zip(got, exact)):
             ctx.fail('meval/point/%s' % site, '%s.evaluate: point %d of %d (params %r) = %r; definition gives %r' %
                      (site, f, total, fprm, list(got), [float(e) for e in exact]),
                      degree=list(dd['degree']), size=list(dd['size']), sample_size=ss, start=start, stop=stop)
